@@ -1,4 +1,5 @@
 """U10b: the scanning loop of add_missing_escape_chars_to_regex (brush-core/src/regex.rs, R6 slice): which `[` get a backslash."""
+import re
 from vx.unit import Unit
 from vx.extract import C
 
@@ -17,7 +18,8 @@ def build(repo, findings):
     f = src.slice('add_missing_escape_chars_to_regex', r'^\s*let mut in_escape = false;', r'^\s*while let Some\(\(byte_offset, c\)\) = peekable\.next\(\) \{',
                   'fn scan_brackets(s: &str) -> Vec<usize>', fn, tail='insertion_positions')
     f.r1().r20()
-    f.sig(fn, ret='r', ensures=[C('C08,C04 positions-of-the-brackets-to-escape', 'r@ == escape_positions(s@, s@.len() as int)')])
+    f.sig(fn, ret='r', ensures=[C('C08,C04 positions-of-the-brackets-to-escape', 'r@ == escape_positions(s@, s@.len() as int)'),
+                                C('C01 the-positions-are-character-boundaries-of-the-text-in-ascending-order', 'asc_bounds(s@, r@, byte_len(s@))')])
     f.ascribe(r'^\s*let mut insertion_positions = vec!\[\];', 'Vec<usize>', fn_name=fn)
     f.before_loop(fn, 0, 'proof { axiom_str_fits_usize(s); assert(s@.take(0) =~= Seq::<char>::empty()); }')
     f.loop(0, fn_name=fn, invariant=[
@@ -26,6 +28,7 @@ def build(repo, findings):
         C('C08,C04 escape-state', 'in_escape == esc(s@, __i as int)'),
         C('C08,C04 bracket-state-an-escaped-bracket-of-quoted-text-opens-nothing', 'in_brackets == in_br(s@, __i as int)'),
         C('C08,C04 positions-so-far', 'insertion_positions@ == escape_positions(s@, __i as int)'),
+        C('C01 positions-so-far-are-boundaries-before-the-current-offset-ascending', 'asc_bounds(s@, insertion_positions@, __off as int) || (insertion_positions@.len() == 0)'),
     ], decreases='__cs@.len() - __i', body_first='''let ghost i0 = __i as int;
 proof {
     lemma_byte_len_take(s@, i0, i0 + 1);
@@ -34,11 +37,57 @@ proof {
     assert(byte_len(seq![s@[i0]]) == byte_len(Seq::<char>::empty()) + utf8_len(s@[i0]));
     lemma_byte_len_take(s@, i0 + 1, s@.len() as int);
     assert(s@.take(s@.len() as int) =~= s@);
+    assert(boundary_at(s@, __off as int, i0));
 }''')
+    f.after_loop(fn, 0, 'proof { assert(s@.take(s@.len() as int) =~= s@); }')
     u.add(f)
+    # ---- second half: a backslash inserted at every position, last first
+    fn2 = 'insert_escapes'
+    g = src.slice('add_missing_escape_chars_to_regex', r'^\s*let mut updated = ', r'^\s*for pos in insertion_positions', 'fn insert_escapes(s: &str, insertion_positions: Vec<usize>) -> String', fn2, tail='updated')
+    g.r1()
+    g.resub(r'\bs\.to_owned\(\)', 'str_to_owned(s)', 'R14', 'str::to_owned -> stub (same characters)', count=None)
+    g.resub(r'for pos in insertion_positions\.iter\(\)\.rev\(\) \{', 'let mut __k: usize = insertion_positions.len();\n    while __k > 0 {\n        __k -= 1;\n        let pos = &insertion_positions[__k];', 'R16', '`for x in V.iter().rev()` -> counted `while` from V.len() down, x = &V[k]', count=None)
+    g.resub(r'\bupdated\.insert\(', 'string_insert(&mut updated, ', 'R19', 'String::insert -> stub whose precondition is std\'s panic condition (offset on a character boundary)', count=None)
+    backward = bool(re.search(r'let mut __k: usize = insertion_positions\.len\(\);', g.text))
+    if not backward:
+        # another loop shape (e.g. front to back): put into counted form without a proof; the precondition of String::insert then
+        # stands or falls on its own
+        g.resub(r'for pos in insertion_positions(?:\.iter\(\))? \{', 'let mut __k: usize = 0;\n    while __k < insertion_positions.len() {\n        let pos = &insertion_positions[__k];\n        __k += 1;', 'R16', '`for x in V` / `V.iter()` -> counted `while`, x = &V[k]', count=1)
+        g.resub(r'string_insert\(&mut updated, pos,', 'string_insert(&mut updated, *pos,', 'R16', 'by-value loop variable -> reference', count=None)
+    g.sig(fn2, ret='r', requires=[C('aux positions-as-the-scan-leaves-them', 'asc_bounds(s@, insertion_positions@, byte_len(s@))')],
+          ensures=[C('C01,C08 one-more-character-per-position', 'r@.len() == s@.len() + insertion_positions@.len()')])
+    if not backward:
+        g.loop(0, fn_name=fn2, invariant=[C('aux', '__k <= insertion_positions@.len()')], decreases='insertion_positions@.len() - __k')
+    if backward:
+        g.before_loop(fn2, 0, 'let ghost mut n: int = s@.len() as int;\nproof { assert(s@.take(n) =~= s@); lemma_boundary_unique_all(s@); }')
+        g.loop(0, fn_name=fn2, invariant=[
+            C('aux', '__k <= insertion_positions@.len() && asc_bounds(s@, insertion_positions@, byte_len(s@))'),
+            C('aux the-text-before-the-last-insertion-point-is-still-that-of-s', '0 <= n <= s@.len() && n <= updated@.len() && updated@.take(n) =~= s@.take(n)'),
+            C('aux every-position-still-to-do-lies-before-it', '__k > 0 ==> (insertion_positions@[__k - 1] as int) < byte_len(s@.take(n))'),
+            C('C01,C08 one-more-character-per-position-done', 'updated@.len() == s@.len() + (insertion_positions@.len() - __k)'),
+        ], decreases='__k')
+        g.before(r'string_insert\(&mut updated, ', '''let ghost m: int = choose|m: int| boundary_at(s@, *pos as int, m);
+proof {
+    assert(boundary(s@, insertion_positions@[__k as int] as int));
+    assert(boundary_at(s@, *pos as int, m));
+    if m >= n { if m > n { lemma_byte_len_monotone(s@, n, m); } assert(false); }
+    assert(updated@.take(m) =~= updated@.take(n).take(m));
+    assert(s@.take(m) =~= s@.take(n).take(m));
+    assert(boundary_at(updated@, *pos as int, m));
+    lemma_boundary_unique_all(updated@);
+}
+let ghost before = updated@;''', fn_name=fn2)
+        g.after_line(r'string_insert\(&mut updated, ', '''proof {
+    assert(updated@ == before.insert(m, '\\\\'));
+    assert(updated@.take(m) =~= before.take(m));
+    n = m;
+    if __k > 0 { assert(insertion_positions@[__k - 1] < insertion_positions@[__k as int]); }
+}''', fn_name=fn2)
+    u.add(g)
     u.raw(FOOTER)
     u.assume('external_body', 'str_chars_vec (R20): the characters of a str as a Vec<char>')
     u.assume('axiom', 'a string has at most isize::MAX bytes')
-    u.assume('stub', 'the second half of add_missing_escape_chars_to_regex (String::insert of a backslash at each position, last first) is NOT verified; escape_literal_regex_piece and the PEG translator brush-parser/src/pattern.rs pattern_to_regex_translator are out of reach')
-    u.expected_min_fns = 1
+    u.assume('stub', 'String::insert is a stub whose precondition is std\'s panic condition; that add_missing_escape_chars_to_regex hands the positions of its first half to its second half unchanged is read off the text between the two slices (`if insertion_positions.is_empty() { return .. }`); escape_literal_regex_piece and the PEG translator brush-parser/src/pattern.rs pattern_to_regex_translator are out of reach')
+    u.assume('assume_specification', 'String::with_capacity returns an empty string (std)')
+    u.expected_min_fns = 2
     return u
